@@ -475,7 +475,7 @@ class Flow:
         if isinstance(st, ast.Raise):
             self.exits.append(('raise', s, st))
             return {}
-        if isinstance(st, (ast.FunctionDef, ast.ClassDef, ast.Import, ast.ImportFrom)):
+        if isinstance(st, (ast.FunctionDef, ast.ClassDef, ast.Import, ast.ImportFrom, ast.Global, ast.Nonlocal)):
             return N(s)
         raise Unsupported(f'statement {type(st).__name__} in emitted skeleton')
 
